@@ -177,7 +177,12 @@ void ApiRun::verify_roundtrip(int ci, int version, const Op &o) {
         if (version != 1) {
             // discriminator: where in the output did the writer give up?
             std::string where = "elsewhere";
-            { size_t e = out.data.size(); while (e > 0 && (out.data[e - 1] == ' ' || out.data[e - 1] == '\n')) --e; if (e > 0 && out.data[e - 1] == ':') where = "value_after_table_key_does_not_fit_line"; }
+            {   // ... while placing the value that follows a table key's colon: the output ends with "<quote>:" plus at most
+                // blanks / a line break and one incomplete token
+                size_t e = out.data.size(), k = std::string::npos;
+                for (size_t i = e; i-- > 1;) if (out.data[i] == ':' && (out.data[i - 1] == '\'' || out.data[i - 1] == '"')) { k = i; break; }
+                if (k != std::string::npos) { size_t t = k + 1; while (t < e && (out.data[t] == ' ' || out.data[t] == '\n')) ++t; bool one_token = true; for (size_t i = t; i < e; ++i) if (out.data[i] == ' ' || out.data[i] == '\n' || out.data[i] == '\t') { bool only_ws_after = true; for (size_t j = i; j < e; ++j) if (out.data[j] != ' ' && out.data[j] != '\n') only_ws_after = false; if (!only_ws_after) one_token = false; break; } if (one_token) where = "value_after_table_key_does_not_fit_line"; }
+            }
             if (!(rc == CIF_DISALLOWED_VALUE && causes.bad_key)) violate("refused", strprintf("cif_write:%s:%s", rc_name(rc), where.c_str()), strprintf("cif_write (CIF 2.0) returned %s for a CIF whose loops all hold packets and whose content is CIF 2.0 text", rc_name(rc)));
             g_stats.inc("write.refused_key"); return;
         }
